@@ -11,11 +11,11 @@ import (
 func init() {
 	reg("C27", Meta{
 		Technique:   "lockset (guarded-by) analysis of the route and pending tables + must-guard reachability for the skip-list and path-key filters",
-		Explanation: "C27 (route tables), structural clauses: (Lk1) every access to Table.routes holds Table.mu (write mode for writes) and every access to pendCallResTab.respList holds its mu — closures run by IterateTarget / store.Iterate are analysed with the lock they take themselves; (G1) GetNextHop offers a neighbour only behind !Neighbor.MemberOf(skips), and collects candidates in a map keyed by the neighbour (distinctness); (G2) Table.Delete keeps a route only behind `route.PathKey != deleted key` and removes the path from the path map and the store; (G3) SavePath records a path only behind verifyPath and len(items)>=2 and never duplicates an existing route (existRoute guard). Not decided: the bound len(routes)<=NeighborAlpha (needs relational numeric reasoning over slices: declared uncovered, see DESIGN §7), path content invariants.",
+		Explanation: "C27 (route tables), structural clauses: (Lk1) every access to Table.routes holds Table.mu (write mode for writes) and every access to pendCallResTab.respList holds its mu — closures run by IterateTarget / store.Iterate are analysed with the lock they take themselves; (W1) route lists are copy-on-write — readers iterate their snapshot after unlocking and the map keeps the stored slice header, so nothing appends into or overwrites a list obtained from t.routes, and Delete stores the filtered list back; (G1) GetNextHop offers a neighbour only behind !Neighbor.MemberOf(skips), and collects candidates in a map keyed by the neighbour (distinctness); (G2) Table.Delete keeps a route only behind `route.PathKey != deleted key` and removes the path from the path map and the store; (G3) SavePath records a path only behind verifyPath and len(items)>=2 and never duplicates an existing route (existRoute guard). Not decided: the bound len(routes)<=NeighborAlpha (needs relational numeric reasoning over slices: declared uncovered, see DESIGN §7), path content invariants.",
 	}, c27)
 	reg("C28", Meta{
 		Technique:   "bad-edge / must-guard reachability on SSA for the TTL and self-in-path discards, loop-dominance of the per-path checks, provenance of path extension and relay skip lists",
-		Explanation: "C28 (route discovery loop-freedom), structural clauses: (G1) in onRouteReq the edges `len(path) > MaxTTL` and `inPath(self, path)` lead to return without reaching SavePaths / saveUnderlay / doRouteReq / doRouteResp, and those sinks are dominated by the loop that checks every request path; in onRouteResp only paths with len<=MaxTTL are kept, the kept list replaces resp.Paths before it is saved, and the self-in-path edge returns before SavePaths / respForward; (P1) generatePaths extends every forwarded path (and the fresh one) with this node's own address; (P2) onRelay / onRelayConnChain append self to the relay path before computing the skip list handed to GetNextHopRandomOrFind, and the skip list is derived from that path; (G2) doRouteReq sends a request to a next hop only when no identical request is pending (!has). Not decided: termination over all topologies and interleavings (model checking, a different family).",
+		Explanation: "C28 (route discovery loop-freedom), structural clauses: (G1) in onRouteReq the edges `len(path) > MaxTTL` and `inPath(self, path)` lead to return without reaching SavePaths / saveUnderlay / doRouteReq / doRouteResp, and those sinks are dominated by the loop that checks every request path; in onRouteResp only paths with len<=MaxTTL are kept, the kept list replaces resp.Paths before it is saved, and the self-in-path edge returns before SavePaths / respForward; (P1) generatePaths extends every forwarded path (and the fresh one) with this node's own address; (P2) onRelay / onRelayConnChain append self to the relay path before computing the skip list handed to GetNextHopRandomOrFind, and the skip list is derived from that path; (P3) every next-hop helper that receives a skip list forwards it to every next-hop helper it calls (GetNextHopRandomOrFind → getNextHopRandom → getNextHopEffective → Table.GetNextHop); (G2) doRouteReq sends a request to a next hop only when no identical request is pending (!has). Not decided: termination over all topologies and interleavings (model checking, a different family).",
 	}, c28)
 }
 
@@ -27,9 +27,9 @@ func c27(r *core.Run) {
 	la.SyncCallees["(pkg/storage.StateStorer).Iterate"] = true
 	la.Run()
 	n := la.CheckGuarded(r, "C27.Lk1", T, "routes", T+".mu", map[string]string{"pkg/routetab.newRouteTable": "constructor"})
-	r.Floor("C27.Lk1", "accesses to Table.routes", n, 7)
+	r.Floor("C27.Lk1", "accesses to Table.routes", n, 4)
 	n = la.CheckGuarded(r, "C27.Lk1", P, "respList", P+".mu", map[string]string{"pkg/routetab.newPendCallResTab": "constructor"})
-	r.Floor("C27.Lk1", "accesses to pendCallResTab.respList", n, 5)
+	r.Floor("C27.Lk1", "accesses to pendCallResTab.respList", n, 3)
 
 	// G1 GetNextHop
 	if fn := w.Func("pkg/routetab", "(*Table).GetNextHop"); fn == nil {
@@ -97,6 +97,53 @@ func c27(r *core.Run) {
 			})
 		}
 		r.Floor("C27.G2", "kept-route appends in Delete", n, 1)
+	}
+
+	// W1: route lists are copy-on-write. Readers (Get, GetNextHop, updateUsedTime) take the
+	// list under RLock and iterate it after unlocking, and the map keeps the old slice header;
+	// so no function may append into / store elements of a list obtained from t.routes, and
+	// Delete must store the filtered list back.
+	fromRoutes := func(v ssa.Value) bool {
+		return core.DerivesFrom(v, func(x ssa.Value) bool {
+			switch y := x.(type) {
+			case *ssa.Lookup:
+				return loadsField(T, "routes")(core.Forward(y.X))
+			}
+			return false
+		}, nil)
+	}
+	nApp := 0
+	for _, fn := range w.PkgFuncs("pkg/routetab") {
+		core.EachInstr(fn, func(_ *ssa.BasicBlock, _ int, in ssa.Instruction) {
+			switch x := in.(type) {
+			case *ssa.Call:
+				if _, isApp := isBuiltinCall(x, "append"); isApp && strings.HasSuffix(x.Type().String(), "TargetRoute") {
+					nApp++
+					r.Check("C27.W1", lsKey("C27.W1", fn, "append target is a fresh route list"), x.Pos(), !fromRoutes(x.Call.Args[0]),
+						"route lists are rebuilt in fresh slices, never appended to in place", "append writes into the backing array of a list taken from t.routes (in-place filtering): the map keeps its old, longer slice header, so removed routes stay visible to GetNextHop, and readers iterating their snapshot race with the writes")
+				}
+			case *ssa.Store:
+				if ia, ok := x.Addr.(*ssa.IndexAddr); ok && strings.HasSuffix(x.Val.Type().String(), "TargetRoute") && fromRoutes(ia.X) {
+					r.Check("C27.W1", lsKey("C27.W1", fn, "element store into a shared route list"), x.Pos(), false,
+						"route lists are never modified in place", "an element of a list taken from t.routes is overwritten in place")
+				}
+			}
+		})
+	}
+	r.Floor("C27.W1", "route-list appends", nApp, 3)
+	if del != nil {
+		stored := false
+		for _, cl := range core.Closures(del) {
+			core.EachInstr(cl, func(_ *ssa.BasicBlock, _ int, in ssa.Instruction) {
+				if mu, ok := in.(*ssa.MapUpdate); ok && loadsField(T, "routes")(core.Forward(mu.Map)) {
+					if core.DerivesFrom(mu.Value, func(x ssa.Value) bool { _, isApp := isBuiltinCall(x, "append"); return isApp }, nil) {
+						stored = true
+					}
+				}
+			})
+		}
+		r.Check("C27.W1", core.Key("C27.W1", del, "filtered list stored back"), del.Pos(), stored,
+			"Delete writes the filtered route list back into the table", "Delete never stores the filtered list into t.routes: the table keeps the list that still contains the deleted path's route")
 	}
 
 	// G3 SavePath
